@@ -365,7 +365,10 @@ def _gen_sync(rng):
 
 
 def tie(ctx):
-    coqrun.make(['C05/TieEnc.vo'], timeout=600)
+    if hasattr(coqrun, 'build'):
+        coqrun.build('C05/TieEnc.v', timeout=600)
+    else:
+        coqrun.make(['C05/TieEnc.vo'], timeout=600)
     rng = ctx.rng
     n = ctx.scale(240, 6000)
     gens = []
